@@ -73,33 +73,43 @@ theorem good_enter (s : St) (t : Thread) : Good s t t.enter := by
 theorem good_ite (s : St) (t a b : Thread) (c : Prop) [Decidable c] (ha : Good s t a) (hb : Good s t b) :
     Good s t (if c then a else b) := by split <;> assumption
 
+/-- an atomic action of goroutine `k` replaces exactly thread `k`, in a `Good` way. -/
+theorem tick_good {s s' : St} {k : Nat} {t : Thread} (hT : TickR s k t s') :
+    ∃ t', s'.thr = s.thr.set k t' ∧ Good s t t' := by
+  cases hT with
+  | wgDone hst => exact ⟨_, rfl, ⟨rfl, rfl, by simp, by simp, by simp [errStage], by simp, fun _ h => h, fun h hn => by first | (refine h ?_; simp [needsItem, hst]; done) | (exfalso; revert hn; simp [needsItem]; done), by simp⟩⟩
+  | eSend hst hc | sSend e hst hc | sDone hst hd => exact ⟨_, rfl, (good_advance s t)⟩
+  | eFailInc hst =>
+    exact ⟨_, rfl, (good_ite _ _ _ _ _ ⟨rfl, rfl, by simp, by simp, by simp [errStage, hst], by simp, fun _ h => h, fun h hn => by first | (refine h ?_; simp [needsItem, hst]; done) | (exfalso; revert hn; simp [needsItem]; done), by simp⟩ (good_advance s t))⟩
+  | sFailInc hst | sPend hst =>
+    exact ⟨_, rfl, (good_ite _ _ _ _ _ ⟨rfl, rfl, by simp, by simp, by simp [errStage], by simp, fun _ h => h, fun h hn => by first | (refine h ?_; simp [needsItem, hst]; done) | (exfalso; revert hn; simp [needsItem]; done), by simp⟩ (good_advance s t))⟩
+  | eStore hst i it hc => exact ⟨_, rfl, ⟨rfl, rfl, by simp, by simp, by simp [errStage, hst], by simp, fun _ h => h, fun h hn => by first | (refine h ?_; simp [needsItem, hst]; done) | (exfalso; revert hn; simp [needsItem]; done), by simp⟩⟩
+  | eIncC hst ho i it hc | eIncS hst ho i it hc =>
+    exact ⟨_, rfl, (good_ite _ _ _ _ _ ⟨rfl, rfl, by simp, by simp, by simp [errStage, hst], by simp, fun _ h => h, fun h hn => by first | (refine h ?_; simp [needsItem, hst]; done) | (exfalso; revert hn; simp [needsItem]; done), by simp⟩
+      ⟨rfl, rfl, by simp, by simp, by simp [errStage, hst], by simp, fun _ h => h, fun h hn => by first | (refine h ?_; simp [needsItem, hst]; done) | (exfalso; revert hn; simp [needsItem]; done), by simp⟩)⟩
+  | eDec hst i it hc =>
+    exact ⟨_, rfl, (good_ite _ _ _ _ _ ⟨rfl, rfl, by simp, by simp, by simp [errStage, hst], by simp, fun _ h => h, fun h hn => by first | (refine h ?_; simp [needsItem, hst]; done) | (exfalso; revert hn; simp [needsItem]; done), by simp⟩ (good_advance s t))⟩
+  | sInc hst i it hc =>
+    exact ⟨_, rfl, (good_ite _ _ _ _ _ ⟨rfl, rfl, by simp, by simp, by simp [errStage], by simp, fun _ h => h, fun h hn => by first | (refine h ?_; simp [needsItem, hst]; done) | (exfalso; revert hn; simp [needsItem]; done), by simp⟩
+      (good_ite _ _ _ _ _ ⟨rfl, rfl, by simp, by simp, by simp [errStage], by simp, fun _ h => h, fun h hn => by first | (refine h ?_; simp [needsItem, hst]; done) | (exfalso; revert hn; simp [needsItem]; done), by simp⟩ (good_advance s t)))⟩
+  | sDec hst i it hc =>
+    exact ⟨_, rfl, (good_ite _ _ _ _ _ ⟨rfl, rfl, by simp, by simp, by simp [errStage], by simp, fun _ h => h, fun h hn => by first | (refine h ?_; simp [needsItem, hst]; done) | (exfalso; revert hn; simp [needsItem]; done), by simp⟩ (good_advance s t))⟩
+  | sLoad hst i it hc =>
+    exact ⟨_, rfl, ⟨rfl, rfl, by simp, by simp, by simp [errStage], fun e he => ⟨i, it, hc, hst, by simpa using he.symm⟩, fun _ h => h, fun h hn => by first | (refine h ?_; simp [needsItem, hst]; done) | (exfalso; revert hn; simp [needsItem]; done), by simp⟩⟩
+
+/-- a goroutine that executes an atomic action is past its callback and not finished -/
+theorem tick_stage {s s' : St} {k : Nat} {t : Thread} (hT : TickR s k t s') :
+    t.st ≠ .idle ∧ t.st ≠ .inCall ∧ t.st ≠ .fin := by
+  cases hT <;> (rename_i hst; first | (simp [hst]) | skip) <;> simp_all
+
 /-- every transition changes at most one thread, in a `Good` way — or it is `start`. -/
 theorem step_thread {s s' : St} (h : StepR s s') :
     s'.thr = s.thr ∨ ∃ k t t', s.thr[k]? = some t ∧ s'.thr = s.thr.set k t' ∧
       (Good s t t' ∨ (t.st = .idle ∧ t' = { t with st := .inCall })) := by
   cases h with
   | tick k t s' hk hT =>
-    right
-    cases hT with
-    | wgDone hst => exact ⟨k, t, _, hk, rfl, .inl ⟨rfl, rfl, by simp, by simp, by simp [errStage], by simp, fun _ h => h, fun h hn => by first | (refine h ?_; simp [needsItem, hst]; done) | (exfalso; revert hn; simp [needsItem]; done), by simp⟩⟩
-    | eSend hst hc | sSend e hst hc | sDone hst hd => exact ⟨k, t, _, hk, rfl, .inl (good_advance s t)⟩
-    | eFailInc hst =>
-      exact ⟨k, t, _, hk, rfl, .inl (good_ite _ _ _ _ _ ⟨rfl, rfl, by simp, by simp, by simp [errStage, hst], by simp, fun _ h => h, fun h hn => by first | (refine h ?_; simp [needsItem, hst]; done) | (exfalso; revert hn; simp [needsItem]; done), by simp⟩ (good_advance s t))⟩
-    | sFailInc hst | sPend hst =>
-      exact ⟨k, t, _, hk, rfl, .inl (good_ite _ _ _ _ _ ⟨rfl, rfl, by simp, by simp, by simp [errStage], by simp, fun _ h => h, fun h hn => by first | (refine h ?_; simp [needsItem, hst]; done) | (exfalso; revert hn; simp [needsItem]; done), by simp⟩ (good_advance s t))⟩
-    | eStore hst i it hc => exact ⟨k, t, _, hk, rfl, .inl ⟨rfl, rfl, by simp, by simp, by simp [errStage, hst], by simp, fun _ h => h, fun h hn => by first | (refine h ?_; simp [needsItem, hst]; done) | (exfalso; revert hn; simp [needsItem]; done), by simp⟩⟩
-    | eIncC hst ho i it hc | eIncS hst ho i it hc =>
-      exact ⟨k, t, _, hk, rfl, .inl (good_ite _ _ _ _ _ ⟨rfl, rfl, by simp, by simp, by simp [errStage, hst], by simp, fun _ h => h, fun h hn => by first | (refine h ?_; simp [needsItem, hst]; done) | (exfalso; revert hn; simp [needsItem]; done), by simp⟩
-        ⟨rfl, rfl, by simp, by simp, by simp [errStage, hst], by simp, fun _ h => h, fun h hn => by first | (refine h ?_; simp [needsItem, hst]; done) | (exfalso; revert hn; simp [needsItem]; done), by simp⟩)⟩
-    | eDec hst i it hc =>
-      exact ⟨k, t, _, hk, rfl, .inl (good_ite _ _ _ _ _ ⟨rfl, rfl, by simp, by simp, by simp [errStage, hst], by simp, fun _ h => h, fun h hn => by first | (refine h ?_; simp [needsItem, hst]; done) | (exfalso; revert hn; simp [needsItem]; done), by simp⟩ (good_advance s t))⟩
-    | sInc hst i it hc =>
-      exact ⟨k, t, _, hk, rfl, .inl (good_ite _ _ _ _ _ ⟨rfl, rfl, by simp, by simp, by simp [errStage], by simp, fun _ h => h, fun h hn => by first | (refine h ?_; simp [needsItem, hst]; done) | (exfalso; revert hn; simp [needsItem]; done), by simp⟩
-        (good_ite _ _ _ _ _ ⟨rfl, rfl, by simp, by simp, by simp [errStage], by simp, fun _ h => h, fun h hn => by first | (refine h ?_; simp [needsItem, hst]; done) | (exfalso; revert hn; simp [needsItem]; done), by simp⟩ (good_advance s t)))⟩
-    | sDec hst i it hc =>
-      exact ⟨k, t, _, hk, rfl, .inl (good_ite _ _ _ _ _ ⟨rfl, rfl, by simp, by simp, by simp [errStage], by simp, fun _ h => h, fun h hn => by first | (refine h ?_; simp [needsItem, hst]; done) | (exfalso; revert hn; simp [needsItem]; done), by simp⟩ (good_advance s t))⟩
-    | sLoad hst i it hc =>
-      exact ⟨k, t, _, hk, rfl, .inl ⟨rfl, rfl, by simp, by simp, by simp [errStage], fun e he => ⟨i, it, hc, hst, by simpa using he.symm⟩, fun _ h => h, fun h hn => by first | (refine h ?_; simp [needsItem, hst]; done) | (exfalso; revert hn; simp [needsItem]; done), by simp⟩⟩
+    obtain ⟨t', h1, h2⟩ := tick_good hT
+    exact .inr ⟨k, t, t', hk, h1, .inl h2⟩
   | start k t hk hs => exact .inr ⟨k, t, _, hk, rfl, .inr ⟨hs, rfl⟩⟩
   | ret k t hk hs => exact .inr ⟨k, t, _, hk, rfl, .inl (good_enter s t)⟩
   | cleanup hw hc | cancel | recvDone hr hd | recvErr e hr he | recvCtx hr hc => exact .inl rfl
